@@ -981,6 +981,10 @@ def binary_round_fn(
     # PHP's round(): halves are rounded away from zero (Python's round()
     # rounds them to even) and the number of digits is truncated
     digits = math.trunc(y)
+    if abs(digits) > 400:
+        # Beyond the range of floats: there is nothing left to round, or
+        # everything rounds to zero (and 10**digits must not be built)
+        return x if digits > 0 else 0
     if digits < 0:
         unit = 10**-digits
         rounded = math.floor(abs(x) / unit + 0.5) * unit
